@@ -2,6 +2,7 @@
 trace on) and exact model for every constructed cell.  Cached on disk, keyed by the contents of
 /repo's working tree, so that an edited tree is always re-run."""
 import hashlib
+import json
 import os
 import pickle
 import time
@@ -10,7 +11,28 @@ import common as C
 import tess as T
 
 
+def corpus_inputs():
+    """regression corpus, run first: witnesses of the recorded known findings and of the fixed defects"""
+    d = os.path.join(C.VERIF, "corpus")
+    out = []
+    for fn in sorted(os.listdir(d)) if os.path.isdir(d) else []:
+        if fn.endswith(".json"):
+            try:
+                inp = json.load(open(os.path.join(d, fn)))["replay"]["input"]
+            except Exception:
+                continue
+            inp = dict(inp)
+            inp.setdefault("mask", None)
+            inp["family"] = "corpus:" + fn[:-5]
+            out.append(inp)
+    return out
+
+
 def suite(tier, seed):
+    return corpus_inputs() + random_suite(tier, seed)
+
+
+def random_suite(tier, seed):
     rng = C.Rng(seed * 7919 + 13)
     if tier == "quick":
         inputs = T.gen_suite(rng, 48, nmax=24)
@@ -156,12 +178,39 @@ def model_cell_view(rec, gi):
 
 
 def panic_class(rec):
-    """coarse class of a panic for the signature: message head + whether a generator lies on a wall"""
+    """class of a panic for the signature: message head + the recorded known-finding class it falls in
+    (K1 generator on a reflective wall, K2 cluster, K4 degenerate configuration = the exact predicate
+    was consulted during this construction); empty class = not a recorded finding"""
     o = rec["impl_raw"] or {}
-    msg = (o.get("panic") or "vor-panic")
-    head = "no-suitable-vertex" if msg.startswith("No suitable vertex found") else msg[:40].replace(" ", "_")
-    cls = T.known_class(rec["inp"]) if head == "no-suitable-vertex" else []
-    return head + (":" + cls[0] if cls else "")
+    return panic_signature(o, rec["inp"])
+
+
+def panic_signature(o, inp):
+    msg = ((o or {}).get("panic") or "vor-panic")
+    if msg.startswith("No suitable vertex found"):
+        head = "no-suitable-vertex"
+    elif msg.startswith("Degenerate 3-plane"):
+        head = "degenerate-3-plane"
+    else:
+        return msg[:40].replace(" ", "_")
+    cls = T.known_class(inp)
+    for k in ("K1-wall", "K2-cluster"):
+        if k in cls:
+            return head + ":" + k
+    tr = (o or {}).get("trace") or {}
+    if tr.get("exact", 0) > 0:
+        return head + ":K4-degenerate"
+    return head
+
+
+def mismatch_class(rec):
+    """suffix for geometric mismatch signatures on inputs of a recorded class where wrong geometry (not only
+    panics) is part of the finding: clusters (K2) and ill-scaled 1D/2D boxes (K3)"""
+    cls = T.known_class(rec["inp"])
+    for k in ("K2-cluster", "K3-illscaled"):
+        if k in cls:
+            return ":" + k
+    return ""
 
 
 def walls_of_generator(rec, gi):
